@@ -287,3 +287,76 @@ def fold_piece(facts, body, ex, e):
             pcs = flatten(cex, cex.local(0, cb.term_loc(rets[0])))
             return _merge(pcs), [m[2][0]], (cb, cex)
     return None
+
+
+def subst(e, m):
+    """e with every sub-expression that is a key of m replaced (keys are whole expressions)."""
+    if e in m:
+        return m[e]
+    if not isinstance(e, tuple):
+        return e
+    out = []
+    for x in e:
+        if isinstance(x, tuple) and x and isinstance(x[0], str):
+            out.append(subst(x, m))
+        elif isinstance(x, tuple):
+            out.append(tuple(subst(y, m) if isinstance(y, tuple) and y and isinstance(y[0], str) else y for y in x))
+        else:
+            out.append(x)
+    return tuple(out)
+
+
+def apply_closure(facts, clo, args):
+    """Value of calling closure aggregate `clo` = ('agg','closure',name,captures) on argument
+    expressions: the closure body's (single, loop-free) return expression with its parameters
+    replaced.  None when the body is not a plain expression of its parameters and captures."""
+    if not (clo[0] == "agg" and clo[1] == "closure") or not facts.has_body(clo[2]):
+        return None
+    cb = facts.body(clo[2])
+    if cb.loops() or cb.arg_count != 1 + len(args):
+        return None
+    rets = cb.return_blocks()
+    if len(rets) != 1:
+        return None
+    cex = Exprs(cb)
+    r = cex.local(0, cb.term_loc(rets[0]))
+    caps = clo[3]
+    m = {}
+    for x in subexprs(r):
+        if x[0] == "var":
+            return None          # not a single expression (branches inside the closure)
+        if x[0] == "field" and strip_refs(x[1]) == ("arg", 1):
+            try:
+                m[x] = ("captured", caps[int(x[2])])
+            except (ValueError, IndexError):
+                return None
+    r = subst(r, m)
+    if any(x == ("arg", 1) for x in subexprs(r)):
+        return None              # the environment is used other than through a captured field
+    m = {("arg", 2 + i): a for i, a in enumerate(args)}
+    for x in subexprs(r):
+        if x[0] == "captured":
+            m[x] = x[1]
+    return subst(r, m)
+
+
+def option_cases(facts, e):
+    """An expression that selects on an Option: `opt.map_or(d, f)`, `opt.map(f).unwrap_or(d)`.
+    Returns (opt, value when None, value when Some) with f applied to the payload
+    `(opt as Some).0`, or None."""
+    e = strip_refs(e)
+    if e[0] != "call":
+        return None
+    c, a = e[1], e[2]
+    if c.endswith("Option::<T>::map_or") and len(a) == 3:
+        opt, dflt, clo = a
+    elif c.endswith("Option::<T>::unwrap_or") and len(a) == 2 and strip_refs(a[0])[0] == "call" and strip_refs(a[0])[1].endswith("Option::<T>::map") and len(strip_refs(a[0])[2]) == 2:
+        opt, clo = strip_refs(a[0])[2]
+        dflt = a[1]
+    else:
+        return None
+    payload = ("field", ("downcast", opt, "Some"), "0")
+    some = apply_closure(facts, clo, [payload])
+    if some is None:
+        return None
+    return opt, dflt, some
